@@ -4,6 +4,10 @@ proof gate (coq/Props/C03.v: frame theorems on the store model)  +  corresponden
 replayed on Model/Store.v (check_history_applicable, vm_compute) and the tensors the implementation changed must be among
 those the model allows to change  +  oracle: fingerprints of every live object before/after each step
 (harness/impl/c03_impl.py), judged by the rules of the property text; MPS/MPO/Krylov level checks.
+Hidden aliasing (a result that is secretly a view of its operand shows only at a LATER in-place write): after every step the
+memory of the block buffers of all live tensors is compared; new sharing must be a documented shallow copy (oracle, with an
+active write probe) and every sharing pair must share a buffer in the model (Model/StoreShare.v: check_shares).  At the MPS
+level every tensor-returning accessor is compared memory-wise with the buffers stored in the network.
 """
 import common
 from common import coq_lit, Nat, CoqRaw
@@ -480,6 +484,9 @@ def main(ctx):
         'the order/sortedness of _qdata and memory layout are representation, not value',
         'C03: effect of an in-place write on shallow copies is unspecified by Array.copy; the check only requires that a shallow copy keeps '
         'labels/legs/qtotal and stays consistent',
+        'C03 documented sharing of block memory: Array.copy(deep=False), gauge_total_charge, sort_legcharge, replace_label(s), add_trivial_leg, '
+        'astype(copy=False); MPS.get_B / MPO.get_W with copy=False, MPO.copy (shallow); MPS.get_SL/get_SR return the stored singular values '
+        'themselves (plain accessors, no copy is claimed).  Every other common memory between a result and a live tensor is a violation',
     ]
     return ctx.finish(RULE, 'frame theorems on the store model for all heaps/aliasing patterns; every history is replayed on the model and judged by '
                       'fingerprints of all live objects in both configurations')
@@ -488,4 +495,11 @@ def main(ctx):
 RULE = ('history: 6-12 steps over tensors of rank 1-4 (0-3 charges, both qconj, missing blocks, 5 dtypes) where every register stays alive; '
         '16 % of the steps are shallow/deep copies, 10 % use the same tensor (or a shallow copy) twice, 16 % are in-place methods preferably '
         'on tensors that have copies, plus iproject/scale_axis/permute/setitem/LegCharge methods; non-trivial = at least one shallow copy or '
-        'in-place step; each history runs in the pure-Python and the compiled configuration.  mps: small entangled MPS/MPO (finite and infinite).')
+        'in-place step; each history runs in the pure-Python and the compiled configuration.  Block structure of the operands: 55 % generic, '
+        '20 % one block per leg (no charges / product states: single-block fast paths of combine_legs/split_legs), 15 % mixed, 10 % one '
+        'populated charge sector; combine-then-split with the combined tensor kept alive, replace_label, add_trivial_leg/squeeze, '
+        'astype(copy=False), zeros_like, full-slice getitem.  After every step the block memory of all live tensors is compared '
+        '(np.shares_memory) and every new sharing that is not a documented shallow copy is probed by writing into the buffers.  '
+        'mps: small MPS/MPO (finite and infinite; entangled or product state; stored in B, A, C, Th or per-site mixed forms); every accessor '
+        '(get_B x 11 forms x copy x label_p, get_theta n=1,2,3 x formL x formR, get_SL/SR, get_W, get_rho_segment, copy, extract_segment) on '
+        'every site is compared memory-wise with all buffers stored in the network.')
